@@ -47,6 +47,9 @@ REG = {
  'C11': ('model_checking', 'TLA+ sequential definitions of Share/ShareReplay/connectable enumerated by TLC and replayed; concurrent traces validated by TLC against a gauge acceptor',
          'ShareSeq.tla and ConnSeq.tla define the reference count, reset flags and connector behaviour; TLC enumerates every operation sequence inside the bounds for 32 Share configurations and 8 connectable configurations; the real operators are driven through each over an instrumented source (deliveries, live and total upstream subscriptions after every operation). Concurrent traces (free-running with yield hooks and park-mode schedule replay) are validated against ShareGauge.tla.',
          'bounds: <= 5 operations, 3 subscribers; the concurrent clause checks <= 1 live upstream at quiescent points, release at reference count zero, grammar, nothing-before-Connect (no linearizability oracle for Share)', '6/C11'),
+ 'C15': ('model_checking', 'TLA+ definition of the re-subscribing operators (Resub.tla) enumerated by TLC; replay over scripted cold sources',
+         'Resub.tla runs attempt by attempt (invariants: at most one live attempt, attempts in order) and TLC enumerates every configuration x outcome sequence x condition sequence x cancellation point inside the bounds; the real operators are run over scripted cold sources (n-th subscription plays the n-th outcome, synchronously and from a goroutine) and forwarded values, terminal, number of subscriptions, overlap of attempts and release are compared.',
+         'bounds: <= 3-4 attempts of <= 1-2 values; RetryWithConfig.Delay not exercised', '6/C15'),
 }
 NA_REASON = 'check not built yet (framework under construction); planned, see DESIGN.md section 6'
 
